@@ -131,7 +131,7 @@ ALL_MENU = (
     "leaf:dd", "ins:ddirty",
 )
 DD_ALTS = (("f", 1, "pos"), ("f", 1, "kw"), ("f", 1, "def"), ("f", 2, "pos"), ("g", 1, "pos"),
-           ("mx", 1, "pos"), ("mx", 1, "mix"), ("my", 1, "pos"), ("s", 1, "pos"), ("sx", 1, "def"))
+           ("mx", 1, "pos"), ("mx", 1, "mix"), ("my", 1, "pos"), ("s", 1, "pos"), ("sx", 1, "def"), ("h", 1, "pos"))
 
 
 def variants(prog, menu):
@@ -376,3 +376,36 @@ if __name__ == "__main__":
             for p, d in deviated(b, ALL_MENU, 2 if n < 3 else 1):
                 tot[d] += 1
         print(n, dict(tot))
+
+
+# --------------------------------------------------------------------------------------------------
+# shape family: ONE task yielding ONE structure; every structure of a top-level container (tuple /
+# list / dict, arity 0..top) whose elements are leaves or containers (arity 0..inner) of leaves.
+# This is where unwrap()'s special-cased tuple lengths and extract_futures()'s traversal orders live,
+# and where "the first failing future in structure order wins" is decided with several failures.
+
+SHAPE_LEAVES = {
+    "quick": (K, ("ef",), IA, ("i", "a", "err")),
+    "thorough": (K, ("ef",), IA, ("i", "b", "err"), ("n",), ("nf",)),
+}
+_KEYS = ("x", "y", "z")
+
+
+def _containers(elems, max_arity):
+    for kind in ("T", "L", "D"):
+        for ar in range(0, max_arity + 1):
+            for combo in itertools.product(elems, repeat=ar):
+                if kind == "D":
+                    yield ("D", tuple((_KEYS[i], c) for i, c in enumerate(combo)))
+                else:
+                    yield (kind, combo)
+
+
+def shape_programs(tier, leaves=None):
+    leaves = leaves or SHAPE_LEAVES[tier]
+    inner = list(_containers(leaves, 2))
+    elems = list(leaves) + inner
+    for lf in leaves:
+        yield ("P", ("t", (("y", lf),)), (), ())
+    for s in _containers(elems, 3):
+        yield ("P", ("t", (("y", s),)), (), ())
